@@ -140,13 +140,15 @@ def stateful_eval(
         variables.update(get_expression_variables(code, env, aliases))
 
     # Extract the nodes of the graph that correspond to stateful transforms
-    stateful_nodes: dict[str, ast.Call] = {}
+    stateful_nodes: list[tuple[str, ast.Call]] = []
     for node in ast.walk(code):
         if _is_stateful_transform(node, env):
-            stateful_nodes[format_expr(node)] = cast(ast.Call, node)
+            stateful_nodes.append((format_expr(node), cast(ast.Call, node)))
 
-    # Mutate stateful nodes to pass in state from a shared dictionary.
-    for name, node in stateful_nodes.items():
+    # Mutate stateful nodes to pass in state from a shared dictionary. (The same
+    # call may occur more than once in an expression; every occurrence shares
+    # the state recorded under its name.)
+    for name, node in stateful_nodes:
         name = name.replace('"', r'\\\\"')
         if name not in state:
             state[name] = {}
